@@ -82,18 +82,43 @@ extern "C" void harness_history2()  /* vf: tier=thorough bounds=6_observed_calls
 }
 
 // the global position counter: line / column / path of a diagnostic do not depend on how much text the process has parsed before
+struct DiagRec { std::string msg, path; long line, col, eline, ecol; };
+struct Rec { bool threw; int rc; std::vector<DiagRec> diags; std::string dump; };
+static Rec call_B_numeric(int kind)
+{
+    Rec r; Document doc; r.threw = false; r.rc = 0;
+    try {
+        switch (kind) {
+        case 0: { DocumentBuilder b(doc); r.rc = parse_XTA("1 +\n (2 * )", &b, true, S_EXPRESSION, "/e"); break; }
+        case 1: { DocumentBuilder b(doc); r.rc = parse_XTA("int a[3], b;\nint c[int[0,1]];\nbool d = zz;", &b, true, S_DECLARATION, "/nta/declaration"); break; }
+        case 2: { MModel m = small_model(true); XmlDoc d = render_xml(m); r.rc = parse_xml(d, &doc); break; }
+        }
+    } catch (std::exception& e) { r.threw = true; }
+    for (auto& e : doc.get_errors())
+        r.diags.push_back(DiagRec{e.msg, e.start.path ? *e.start.path : std::string(), (long)e.start.line, (long)(uint32_t)(e.position.start - e.start.position), (long)e.end.line, (long)(uint32_t)(e.position.end - e.end.position)});
+    r.dump = dump_document(doc);
+    return r;
+}
 extern "C" void harness_position_counter()  /* vf: bounds=global_position_counter_set_to_any_value_in_[2^31-64,2^31+64]_or_[2^32-96,2^32-1]_(symbolic,solver-decided)_before_the_observed_call;3_observed_calls reach=end */
 {
     int b = vf_pick("!observed", 3);
-    static const int KINDS[] = {5, 2, 0};
-    std::string first = call_B(KINDS[b]);
+    Rec first = call_B_numeric(b);
     unsigned off = vf_uint("offset");
     int region = vf_pick("region", 2);
     vf_assume(off <= 128);
     uint32_t start = region == 0 ? (uint32_t)(0x80000000u - 64u + off) : (uint32_t)(0xFFFFFFFFu - 96u + (off % 97));
     UTAP::tracker.position = start;
-    std::string again = call_B(KINDS[b]);
-    if (first != again) { vf_note(first.c_str()); vf_note(again.c_str()); }
-    vf_assert(first == again, "result-independent-of-the-position-counter");
+    Rec again = call_B_numeric(b);
+    vf_assert(first.threw == again.threw && first.rc == again.rc, "same-outcome-for-every-counter-value");
+    vf_assert(first.diags.size() == again.diags.size(), "same-number-of-diagnostics");
+    bool same = first.dump == again.dump;
+    for (size_t k = 0; k < first.diags.size() && k < again.diags.size(); k++) {
+        const DiagRec &x = first.diags[k], &y = again.diags[k];
+        if (x.msg != y.msg || x.path != y.path) same = false;
+        // numeric fields may be symbolic terms over the counter: the solver decides equality for all its values
+        vf_assert(x.line == y.line && x.eline == y.eline, "same-lines-for-every-counter-value");
+        vf_assert(x.col == y.col && x.ecol == y.ecol, "same-columns-for-every-counter-value");
+    }
+    vf_assert(same, "same-messages-paths-and-document");
     vf_reach("end");
 }
